@@ -2,7 +2,9 @@ package main
 
 import (
 	"fmt"
+	"math"
 	"os"
+	"strconv"
 	"strings"
 	"sync"
 	"sync/atomic"
@@ -19,7 +21,7 @@ type growthResult struct {
 	Complete bool
 }
 
-var growthRuns atomic.Int64
+var growthRuns, remeasured atomic.Int64
 
 type point struct {
 	N        int     `json:"n"`
@@ -41,25 +43,38 @@ const (
 	// (>= 1 s of CPU for well under a megabyte of input at the quick sizes, which linear parsing never needs) and over
 	// three doublings, where quadratic (64x) and linear (8x) are far apart even when single doublings
 	// measure anywhere between 3x and 7x on a loaded machine; the smallest of 4 measurements counts
-	cpuRatioQuad8 = 24.0 // over three doublings: linear 8x, n log n about 10x, quadratic 64x
-	cpuQuadMin    = 1.0
+	cpuRatioQuad8   = 24.0 // over three doublings: linear 8x, n log n about 10x, quadratic 64x
+	cpuQuadMin      = 1.0
+	remeasureRounds = 12
+	warmupN         = 8 // size of the unmeasured warm-up job that opens every series
 )
 
 // measure runs a series of sizes of one family under one variant in one fresh worker (one job
 // per size; counters are deltas around each job). A death ends the series at the open size.
 func measure(g growth, sizes []int, variant string, budget time.Duration) (pts []point, reps [][]finding, death *workerOut) {
-	var jobs []job
+	// job 0 is a warm-up of the same family and variant at a small size: whatever a process
+	// allocates once (lazily built tables, the first client's goroutine stacks and buffers, fmt and
+	// reflection caches, about 40 KB and 760 allocations) is then paid before the first measured
+	// size instead of inside it. Without it the first size of every series carried that constant,
+	// which inflated the ratio across the stage boundary and deflated it in every re-measurement.
+	const warm = 1
+	jobs := []job{{id: 0, mask: variantMask(variant), flags: fMeasure, input: g.gen(warmupN)}}
 	for i, n := range sizes {
-		jobs = append(jobs, job{id: uint32(i), mask: variantMask(variant), flags: fMeasure, input: g.gen(n)})
+		jobs = append(jobs, job{id: uint32(i + warm), mask: variantMask(variant), flags: fMeasure, input: g.gen(n)})
 	}
 	growthRuns.Add(int64(len(sizes)))
 	out := runWorker(jobs, workerOpts{budget: budget, watchdog: int(budget/time.Second) + 30})
+	if out.done == nil && out.lastBeg == 0 {
+		// the worker died in the warm-up itself: reported as a death at that size
+		kind, _, msg := classifyDeath(out.stderr, out.timedOut)
+		return []point{{N: warmupN, Bytes: len(jobs[0].input), Outcome: kind + ": " + msg}}, [][]finding{nil}, &out
+	}
 	for i, n := range sizes {
-		pt := point{N: n, Bytes: len(jobs[i].input)}
+		pt := point{N: n, Bytes: len(jobs[i+warm].input)}
 		var fs []finding
 		found := false
 		for _, r := range out.reports {
-			if int(r.ID) != i {
+			if int(r.ID) != i+warm {
 				continue
 			}
 			found = true
@@ -71,7 +86,7 @@ func measure(g growth, sizes []int, variant string, budget time.Duration) (pts [
 			fs = r.Findings
 		}
 		if !found {
-			if out.done == nil && int64(i) == out.lastBeg {
+			if out.done == nil && int64(i+warm) == out.lastBeg {
 				kind, _, msg := classifyDeath(out.stderr, out.timedOut)
 				pt.Outcome = kind + ": " + msg
 				pts = append(pts, pt)
@@ -205,18 +220,37 @@ func runGrowth(thorough bool, res chan<- growthResult) {
 					if r <= allocRatioMax {
 						continue
 					}
-					// re-measure both sizes twice; the smallest ratio counts
+					// Re-measure the pair up to remeasureRounds times. Growth that is really there is
+					// there in every run, so it must show both in the smallest ratio of a pair measured
+					// together and in the ratio of the smallest value seen for each size, every time. A
+					// counter that differs between runs of the same input by an additive amount (a copy
+					// made or not depending on which goroutine gets there first; an error formatted or
+					// not depending on which of two ready channels a select picks) lifts single ratios
+					// above the limit, but not all of them: the first pair at or below the limit ends
+					// the re-measurement. With the two-valued noise seen in this client (one coin per
+					// run) a pair is above the limit with probability <= 1/4, all twelve with < 1e-7.
 					best := r
-					for t := 0; t < 2; t++ {
+					floorA, floorB := get(a, c), get(b, c)
+					floor := r
+					remeasured.Add(1)
+					rounds := 0
+					for rounds < remeasureRounds && best > allocRatioMax && floor > allocRatioMax {
+						rounds++
 						p2, _, _ := measure(g, []int{a.N, b.N}, variant, budget)
 						if len(p2) == 2 && p2[0].Outcome == "ok" && p2[1].Outcome == "ok" {
-							if r2 := ratio(get(p2[0], c), get(p2[1], c)); r2 < best {
+							va, vb := get(p2[0], c), get(p2[1], c)
+							if r2 := ratio(va, vb); r2 < best {
 								best = r2
 							}
+							floorA, floorB = math.Min(floorA, va), math.Min(floorB, vb)
+							floor = ratio(floorA, floorB)
 						}
 					}
-					if best > allocRatioMax {
-						report(growthKey(g, "superlinear-alloc"), fmt.Sprintf("family %s: %s grows %.2fx from n=%d to n=%d (%d -> %d bytes allocated, %d -> %d allocations) for an input that doubles (%d -> %d bytes); limit %.1fx", name, ctrNames[c], best, a.N, b.N, a.Alloc, b.Alloc, a.Mallocs, b.Mallocs, a.Bytes, b.Bytes, allocRatioMax), b.N)
+					if os.Getenv("C11_GROWTH_LOG") != "" {
+						fmt.Fprintf(os.Stderr, "c11: growth %s: %s x%.2f from n=%d to n=%d re-measured %d times: smallest pair ratio x%.2f, ratio of the smallest values x%.2f\n", name, ctrNames[c], r, a.N, b.N, rounds, best, floor)
+					}
+					if best > allocRatioMax && floor > allocRatioMax {
+						report(growthKey(g, "superlinear-alloc"), fmt.Sprintf("family %s: %s grows %.2fx from n=%d to n=%d (%d -> %d bytes allocated, %d -> %d allocations) for an input that doubles (%d -> %d bytes); smallest of 13 measurements of the pair %.2fx, ratio of the smallest value of each size %.2fx; limit %.1fx", name, ctrNames[c], r, a.N, b.N, a.Alloc, b.Alloc, a.Mallocs, b.Mallocs, a.Bytes, b.Bytes, best, floor, allocRatioMax), b.N)
 					}
 				}
 				// quadratic work that allocates nothing: compare with the size three doublings back
@@ -338,19 +372,52 @@ func replayGrowth(name string, n int) (reproduced bool) {
 				sz = append(sz, m)
 			}
 		}
-		pts, reps, death := measure(g, sz, variant, 600*time.Second)
-		for k, pt := range pts {
-			fmt.Printf("  n=%d input=%d bytes: outcome=%s alloc=%d mallocs=%d reads=%d deadline_calls=%d cpu=%.3fs max_depth_delivered=%d\n", pt.N, pt.Bytes, pt.Outcome, pt.Alloc, pt.Mallocs, pt.Reads, pt.Deadline, pt.CPU, pt.MaxDepth)
-			for _, f := range reps[k] {
-				fmt.Printf("    => finding key=%s: %s\n", f.Key, f.What)
-				reproduced = true
-			}
-			if k > 0 && pts[k-1].Outcome == "ok" && pt.Outcome == "ok" {
-				ra, rm := ratio(float64(pts[k-1].Alloc), float64(pt.Alloc)), ratio(float64(pts[k-1].Mallocs), float64(pt.Mallocs))
-				fmt.Printf("    growth for a doubled input: allocated bytes x%.2f, allocations x%.2f, cpu x%.2f (limit x%.1f on the first two)\n", ra, rm, ratio(pts[k-1].CPU, pt.CPU), allocRatioMax)
-				if ra > allocRatioMax || rm > allocRatioMax {
+		// the rule of the check: up to 1+remeasureRounds measurements of the pair; growth above the
+		// limit must show every time in the smallest pair ratio and in the ratio of the smallest
+		// value of each size
+		var pts []point
+		var reps [][]finding
+		var death *workerOut
+		bestA, bestM := math.Inf(1), math.Inf(1)
+		var floor [2][2]float64 // [size][alloc, mallocs]
+		pairs := 0
+		for t := 0; t < 1+remeasureRounds && death == nil; t++ {
+			pts, reps, death = measure(g, sz, variant, 600*time.Second)
+			for k, pt := range pts {
+				fmt.Printf("  run %d n=%d input=%d bytes: outcome=%s alloc=%d mallocs=%d reads=%d deadline_calls=%d cpu=%.3fs max_depth_delivered=%d\n", t, pt.N, pt.Bytes, pt.Outcome, pt.Alloc, pt.Mallocs, pt.Reads, pt.Deadline, pt.CPU, pt.MaxDepth)
+				for _, f := range reps[k] {
+					fmt.Printf("    => finding key=%s: %s\n", f.Key, f.What)
 					reproduced = true
 				}
+			}
+			if reproduced || len(sz) < 2 {
+				break
+			}
+			if len(pts) == 2 && pts[0].Outcome == "ok" && pts[1].Outcome == "ok" {
+				ra, rm := ratio(float64(pts[0].Alloc), float64(pts[1].Alloc)), ratio(float64(pts[0].Mallocs), float64(pts[1].Mallocs))
+				fmt.Printf("    growth for a doubled input: allocated bytes x%.2f, allocations x%.2f, cpu x%.2f\n", ra, rm, ratio(pts[0].CPU, pts[1].CPU))
+				bestA, bestM = math.Min(bestA, ra), math.Min(bestM, rm)
+				for k := 0; k < 2; k++ {
+					va, vm := float64(pts[k].Alloc), float64(pts[k].Mallocs)
+					if pairs == 0 || va < floor[k][0] {
+						floor[k][0] = va
+					}
+					if pairs == 0 || vm < floor[k][1] {
+						floor[k][1] = vm
+					}
+				}
+				pairs++
+				fa, fm := ratio(floor[0][0], floor[1][0]), ratio(floor[0][1], floor[1][1])
+				if (bestA <= allocRatioMax || fa <= allocRatioMax) && (bestM <= allocRatioMax || fm <= allocRatioMax) {
+					break // neither counter can be above the limit any more
+				}
+			}
+		}
+		if pairs > 0 {
+			fa, fm := ratio(floor[0][0], floor[1][0]), ratio(floor[0][1], floor[1][1])
+			fmt.Printf("  over %d measurements of the pair: allocated bytes smallest pair ratio x%.2f, ratio of the smallest values x%.2f; allocations x%.2f, x%.2f (limit x%.1f on both of a counter)\n", pairs, bestA, fa, bestM, fm, allocRatioMax)
+			if pairs == 1+remeasureRounds && ((bestA > allocRatioMax && fa > allocRatioMax) || (bestM > allocRatioMax && fm > allocRatioMax)) {
+				reproduced = true
 			}
 		}
 		if death != nil {
@@ -367,4 +434,37 @@ func replayGrowth(name string, n int) (reproduced bool) {
 	}
 	run.EngineError("unknown growth family %q", name)
 	return
+}
+
+// growthScan is a diagnostic (C11_GROWTH_SCAN=<substring of family@variant>[,...] C11_GROWTH_SCAN_REPEAT=k):
+// it measures the quick sizes of the selected families k times and prints every point, to see how
+// much the counters of one size vary between runs. It decides nothing.
+func growthScan(sel string) {
+	k := 5
+	if v, err := strconv.Atoi(os.Getenv("C11_GROWTH_SCAN_REPEAT")); err == nil && v > 0 {
+		k = v
+	}
+	sizes := []int{1 << 10, 2 << 10, 4 << 10, 8 << 10, 16 << 10, 32 << 10, 64 << 10}
+	for _, g := range growthFamilies() {
+		for _, variant := range []string{"cmdsA", "unsol"} {
+			name := g.name + "@" + variant
+			hit := false
+			for _, s := range strings.Split(sel, ",") {
+				if s == "all" || strings.Contains(name, s) {
+					hit = true
+				}
+			}
+			if !hit {
+				continue
+			}
+			for t := 0; t < k; t++ {
+				pts, _, _ := measure(g, sizes, variant, 240*time.Second)
+				fmt.Printf("%s run %d:", name, t)
+				for _, pt := range pts {
+					fmt.Printf(" n=%d[%s alloc=%d mallocs=%d reads=%d dl=%d]", pt.N, pt.Outcome, pt.Alloc, pt.Mallocs, pt.Reads, pt.Deadline)
+				}
+				fmt.Println()
+			}
+		}
+	}
 }
